@@ -50,6 +50,7 @@ RAWS = [
     ("str", "inf"), ("str", "-Infinity"), ("str", "nan"), ("str", "1e999"), ("str", "1_0"), ("str", "0x10"), ("str", "1.5.2"),
     ("str", "nf_fin"), ("str", "fz_fin"), ("str", "nf_un"), ("str", "fz_un"), ("str", "ech_fin"), ("str", "ech_un"), ("str", "noout_un"), ("str", "nosuch"),
     ("str", "rel/a.csv"), ("str", "exists.csv"), ("str", "ABS/exists.csv"), ("str", "ABS/missing.csv"),
+    ("str", "WDIR/exists.csv"),  # a path that begins with the working directory's own text (still relative when the working directory is)
     ("list", []), ("list", [("int", 1), ("str", "2.5")]), ("list", [("str", "a"), ("str", "b")]), ("list", [("str", "nf_fin"), ("str", "nf_un")]),
     ("list", [("str", "nf_fin"), ("str", "fz_fin")]), ("list", [("list", [("int", 1)]), ("list", [])]), ("list", [("str", "true"), ("int", 0)]),
     ("list", [("int", 1), ("list", [("int", 2)])]), ("list", [("cmd", "nf_fin")]),
@@ -140,7 +141,7 @@ def _context(wdname):
     cmds = {}
     for name, (cls, fin) in spec.items():
         cmds[name] = {"fuzzy": cls == "ConstFZ", "kind": "data" if cls.startswith("Const") else ("none" if cls == "NoOut" else "other"), "finished": fin}
-    ctx = {"wd": wd, "exists": {os.path.join(base, "exists.csv")}, "commands": cmds}
+    ctx = {"wd": wd, "exists": {os.path.join(base, "exists.csv")} | ({os.path.join(wd, "exists.csv")} if wd else set()), "commands": cmds}
     _CTX[wdname] = (p, ctx, base)
     return _CTX[wdname]
 
@@ -150,7 +151,7 @@ def _mk(raw, p, base):
     if t in ("int", "float", "bool"):
         return raw[1]
     if t == "str":
-        return raw[1].replace("ABS", base)
+        return raw[1].replace("ABS", base).replace("WDIR", p.working_dir or "WDIR")
     if t == "list":
         return [_mk(x, p, base) for x in raw[1]]
     if t == "dict":
@@ -168,11 +169,11 @@ def _mk(raw, p, base):
     raise ValueError(raw)
 
 
-def _raw_abs(raw, base):
+def _raw_abs(raw, base, wd=None):
     if raw[0] == "str":
-        return ("str", raw[1].replace("ABS", base))
+        return ("str", raw[1].replace("ABS", base).replace("WDIR", wd or "WDIR"))
     if raw[0] == "list":
-        return ("list", [_raw_abs(x, base) for x in raw[1]])
+        return ("list", [_raw_abs(x, base, wd) for x in raw[1]])
     return raw
 
 
@@ -341,7 +342,7 @@ def run(case):
         outcomes["%s:%s" % (cfg[1], oc)] = outcomes.get("%s:%s" % (cfg[1], oc), 0) + 1
         if r1[0] == "raw":
             viols.append(V("C20:%s:raw-exception:%s:%s" % (cfg[1], r1[1], raw[0]), "%s.clean(%r) raised %s: %s" % (cname, raw, r1[1], r1[2]), **tag))
-        exp = RP.expect(kind, _raw_abs(raw, base), ctx)
+        exp = RP.expect(kind, _raw_abs(raw, base, ctx["wd"]), ctx)
         if exp[0] == "unspec":
             unspec += 1
         else:
